@@ -8,7 +8,7 @@ from vlib.flow import enclosing_tries, handler_raises, handler_types, parent_map
 from vlib.grammar import GrammarModel, ladder
 from vlib.nodemodel import NodeModel
 from vlib.guards import always_exits
-from vlib.match import X, atoms, closure, facts, facts_through, guarded_through, has_call, nodes
+from vlib.match import FI, X, atoms, closure, closure_fi, facts, facts_through, guarded_through, has_call, nodes
 from vlib.norm import helper_closure
 from vlib.srcindex import SourceIndex, attr_chain, const_str, unparse, walk_no_nested
 
@@ -276,7 +276,7 @@ def run(rep: Report, tier: str) -> None:
 	gate = lambda n: any(p_ and isinstance(a, ast.Compare) and isinstance(a.ops[0], ast.In) and unparse(a.comparators[0]).endswith('AllowOps') for a, p_ in atoms(tx, n))
 	r3.check(bool(rets) and all(gate(n) for n in rets) and any(isinstance(n, ast.Raise) for n in ast.walk(tx)), 'terminal-gate', term.where, 'on_terminal must return a token only when it is in AllowOps and refuse every other token')
 	fb = c.method('on_fallback')
-	r3.check(fb is not None and 'raise Errors.OperationNotAllowed' in unparse(fb.node), 'fallback-refuses', fb.where if fb else c.where, 'on_fallback no longer refuses unknown node kinds')
+	r3.check(fb is not None and any(raised_name(n) == 'Errors.OperationNotAllowed' for b in closure_fi(fb) for n in nodes(b, ast.Raise)), 'fallback-refuses', fb.where if fb else c.where, 'on_fallback no longer refuses unknown node kinds')
 
 	# literal decoding / casts
 	r4 = rep.rule('C17/literal-decoding', 'literal handlers and cast emulation call the Python builtin of the same name (int base 16 only under the 0x prefix)', floor=6)
@@ -325,12 +325,35 @@ def run(rep: Report, tier: str) -> None:
 	if not seen_casts:
 		r4.skip('cast:?', fc.where, 'on_func_call no longer has `return <builtin>(...)` arms under `<callee name> == \'<builtin>\'`')
 	# the content of a string literal is the text between its two quote characters: exactly one character is removed per side
-	greedy = [n for defs_ in c.methods.values() for f_ in defs_ for n in ast.walk(f_.node) if isinstance(n, ast.Call) and isinstance(n.func, ast.Attribute) and n.func.attr in ('strip', 'lstrip', 'rstrip', 'replace') and n.args and isinstance(n.args[0], ast.Constant) and isinstance(n.args[0].value, str) and set(n.args[0].value) & set('"\'')]
+	greedy = [n for defs_ in c.methods.values() for f_ in defs_ for n in ast.walk(f_.node) if isinstance(n, ast.Call) and isinstance(n.func, ast.Attribute) and n.func.attr in ('strip', 'lstrip', 'rstrip', 'replace') and n.args and isinstance(n.args[0], ast.Constant) and isinstance(n.args[0].value, str) and set(n.args[0].value) & set('"\'') and (n.func.attr != 'replace' or (len(n.args) > 1 and isinstance(n.args[1], ast.Constant) and n.args[1].value == ''))]
 	for n in greedy:
 		r4.violate(f'unquote:{unparse(n)[:40]}', (EVAL, n.lineno), f'`{unparse(n)}` removes EVERY quote character at the edges of the literal, not just the delimiters: `"\'" + "abc" + "\'"` folds to `abc` (CPython: \'abc\'), `int("\'5\'")` is accepted', unparse(n))
 	slices_ = [n for defs_ in c.methods.values() for f_ in defs_ for n in ast.walk(f_.node) if isinstance(n, ast.Subscript) and isinstance(n.slice, ast.Slice) and unparse(n.slice) == '1:-1']
 	r4.check(bool(slices_) or bool(greedy), 'unquote:delimiters-only', c.where, 'no `[1:-1]` un-quoting left in LiteralEvaluator (rule needs re-derivation)') if not slices_ and not greedy else r4.ok('unquote:delimiters-only', c.where) if not greedy else None
-	r4.check('raise Errors.OperationNotAllowed' in unparse(fc.node), 'cast:other-refused', fc.where, 'calls other than the scalar casts are no longer refused')
+	# string concatenation: the folded literal is written between ONE pair of quotes (the left operand's); the body of an operand that was written with the
+	# other quote character may contain that quote unescaped, so it cannot be pasted verbatim
+	cat = c.method('_cat')
+	if cat is None:
+		r4.skip('concat:requoted', c.where, 'LiteralEvaluator._cat vanished')
+	else:
+		cx = FI(cat)
+		from vlib.match import concat_parts
+		lits = [(n, [v for k_, v in concat_parts(n.value) if k_ == 'expr']) for n in nodes(cx, ast.Return) if n.value is not None]
+		lits = [(n, fv) for n, fv in lits if len(fv) >= 3 and unparse(fv[0]) == unparse(fv[-1])]
+		if not lits:
+			r4.skip('concat:requoted', cat.where, '_cat no longer builds the folded literal as delimiter + bodies + delimiter (f-string or + chain)')
+		for js, fv in lits:
+			delim = fv[0]
+			owner = unparse(delim.value) if isinstance(delim, ast.Subscript) else None
+			for body in fv[1:-1]:
+				verbatim = isinstance(body, ast.Subscript) and isinstance(body.slice, ast.Slice) and unparse(body.slice) == '1:-1'
+				if not verbatim:
+					r4.ok(f'concat:requoted:{unparse(body)[:30]}', (EVAL, js.lineno))
+					continue
+				x = unparse(body.value)
+				same = x == owner or any(p_ and isinstance(a, ast.Compare) and len(a.ops) == 1 and isinstance(a.ops[0], ast.Eq) and {unparse(a.left), unparse(a.comparators[0])} == {f'{x}[0]', unparse(delim)} for a, p_ in atoms(cx, js))
+				r4.check(same, f'concat:requoted:{x}', (EVAL, js.lineno), f'_cat writes the body of `{x}` verbatim between the quotes of `{owner}`: when the two literals use different quote characters the body may contain the new delimiter unescaped (`"a" + \'say "hi"\'` folds to `"asay "hi""`, not a literal of the Python value)', unparse(js)[:120])
+	r4.check(any(raised_name(n) == 'Errors.OperationNotAllowed' for b in closure_fi(fc) for n in nodes(b, ast.Raise)), 'cast:other-refused', fc.where, 'calls other than the scalar casts are no longer refused')
 	hexpat = gm.term_patterns.get('HEX_NUMBER')
 	if hexpat is not None and 'i' in getattr(hexpat, 'flags', ()):
 		r4.note('the grammar terminal HEX_NUMBER is case-insensitive: `0X1F` is decoded with int(tokens) and refused through ValueError -> Errors.Fatal (not a wrong value)')
